@@ -193,8 +193,8 @@ def check_null_runner(ck):
 
 
 def check(ck):
-    check_guard(ck)
-    check_queries_effect_free(ck, "C19.R2")
-    check_plumbing(ck)
-    check_null_storage(ck)
-    check_null_runner(ck)
+    ck.run(check_guard, ck)
+    ck.run(check_queries_effect_free, ck, "C19.R2")
+    ck.run(check_plumbing, ck)
+    ck.run(check_null_storage, ck)
+    ck.run(check_null_runner, ck)
